@@ -312,6 +312,27 @@ func execPlan(t *testing.T, pa any) (out core.Outcome) {
 			}
 			stable = append(stable, obj{h, eo.Type(), b})
 		}
+		// Bucket mates: a prefix search walks the index entries that share the prefix's first byte and stops at the
+		// first name that does not match. With a few dozen objects hardly any two share a first byte, so that path
+		// (early end of the walk inside a bucket, iterator closed before its caller closes it) never ran. Three
+		// stable objects get a blob whose id has the same first byte and a greater second one, stored in the same
+		// place as their partner.
+		partner := map[int]int{}
+		for i := 0; i < len(stable) && i < 3; i++ {
+			h := stable[i].id.Bytes()
+			if h[1] == 0xff {
+				continue
+			}
+			for j := 0; j < 200000; j++ {
+				d := []byte(fmt.Sprintf("bucket mate %d of %s\n", j, stable[i].id))
+				id := objID(plumbing.BlobObject, d)
+				if b := id.Bytes(); b[0] == h[0] && b[1] > h[1] {
+					partner[len(stable)] = i
+					stable = append(stable, obj{id, plumbing.BlobObject, d})
+					break
+				}
+			}
+		}
 		grow := make([]obj, nGrow)
 		for i := range grow {
 			d := []byte(fmt.Sprintf("growing object %d of run %d\n%s", i, p.Seed, strings.Repeat("g", 30*i)))
@@ -335,6 +356,9 @@ func execPlan(t *testing.T, pa any) (out core.Outcome) {
 			return
 		}
 		layoutOf := func(i int) int {
+			if pi, ok := partner[i]; ok {
+				i = pi
+			}
 			if i < len(p.Layout) {
 				return mod(p.Layout[i], 5)
 			}
